@@ -194,6 +194,11 @@ func checkPipesCase(res *Result, r *ppRunner, lines [][]byte, calls []specCall, 
 			}
 			res.violation(Finding{Property: "C02", Aspect: "pp-piecewise", What: fmt.Sprintf("%s: fed in %d pieces with stdin kept open in between, %s (exit: %v)", tag, len(pieces), what, werr),
 				Case: cs, Expected: string(want0), Observed: string(got)})
+			if writeFailed || len(got) < len(want0) {
+				// part of the stream was never scanned: what follows the point where pp stopped - text and dumps - is skipped
+				res.violation(Finding{Property: "C07", Aspect: "pp-skipped", What: fmt.Sprintf("%s: fed in %d pieces with stdin kept open in between, pp stops scanning before the end of the stream: the rest is neither forwarded nor parsed (exit: %v)", tag, len(pieces), werr),
+					Case: cs, Expected: string(want0), Observed: string(got)})
+			}
 		}
 		res.count("piecewise_totals_compared", 1)
 	}
